@@ -154,8 +154,20 @@ def r02_5(ctx, run, rule='R02.5'):
         n += 1
         evs = [canon(e[1]).split('::')[-1] for e in p.calls()]
         ok = 'skip_unused' in evs and 'parse_json_value' in evs and evs.index('parse_json_value') < evs.index('skip_unused')
-        lt = [c for c in p.conds if c[0][0] == 'bin' and c[0][1] == 'Lt' and any(s[0] == 'len' or is_call(s, 'slice::len') for s in subterms(c[0]))]
-        ok = ok and any(c[2] is False for c in lt)
+        # on this path the cursor is at (or past) the end of the input: some comparison between the cursor and len(buf)
+        # entails len <= cursor, however it is written (idx < len false, len > idx false, idx >= len true, ...)
+        from panics import norm, norm_conds
+        from pathfacts import PathFacts
+        pf = PathFacts(norm_conds(p.conds))
+        at_end = False
+        for c in p.conds:
+            t = c[0]
+            if t[0] == 'bin' and t[1] in ('Lt', 'Gt', 'Le', 'Ge', 'Eq', 'Ne'):
+                for L, I in ((t[2], t[3]), (t[3], t[2])):
+                    if any(s_[0] == 'len' or is_call(s_, 'slice::len') for s_ in subterms(L)) and not any(s_[0] == 'len' or is_call(s_, 'slice::len') for s_ in subterms(I)):
+                        if pf.prove_le(norm(L), norm(I), False):
+                            at_end = True
+        ok = ok and at_end
         if not ok:
             bad += 1
     (run.proved if n and not bad else run.violation)(rule, b.path, 'trailing-check', 'Ok only after skip_unused and idx >= len' if n and not bad else
